@@ -240,7 +240,7 @@ func (w *ExpWorld) Apply(op string) (string, []Violation) {
 					if post.Exp != doc.exp {
 						c.add("C14", "preserve", "PreserveExpiry write changed the expiry from %d to %d", doc.exp, post.Exp)
 					}
-				case newExp != nil && !post.HasValue && *newExp != 0:
+				case newExp != nil && !post.HasValue && *newExp != 0 && (parts[0] == "uxe" || parts[0] == "updonly"):
 					// an expiry given to a key that ends up without a body means nothing: spec-silent
 				case newExp != nil:
 					if post.Exp != *newExp {
